@@ -6,7 +6,7 @@ Events never decide a property (DESIGN 5.2): they attribute an observed failure 
 from ..oracles import boolvec, revsim
 from ..oracles.space import Space
 
-STATE = {"on": False, "events": [], "calls": 0, "sp": None, "st": None, "ptr": 0, "depth": 0}
+STATE = {"on": False, "events": [], "calls": 0, "sp": None, "st": None, "ptr": 0, "depth": 0, "frames": [], "clobbers": [], "inplace_nots": 0}
 _installed = False
 
 
@@ -43,7 +43,7 @@ def install():
 
     def compile(self, name, args, returns, exprs, uncompute=True):
         n = sum(len(a.bitvec) for a in args)
-        STATE.update(on=STATE.get("armed", False) and n <= 12, events=[], calls=0, ptr=0, depth=0)
+        STATE.update(on=STATE.get("armed", False) and n <= 12, events=[], calls=0, ptr=0, depth=0, frames=[], clobbers=[], inplace_nots=0)
         if STATE["on"]:
             sp = Space(n)
             STATE["sp"] = sp
@@ -74,6 +74,8 @@ def install():
         finally:
             STATE["depth"] -= 1
         STATE["calls"] += 1
+        if STATE["frames"] and STATE["frames"][-1]["depth"] == d - 1:
+            STATE["frames"][-1]["children"].append(r)
         if val is None or not STATE["on"]:
             return r
         _sync(qc)
@@ -90,8 +92,41 @@ def install():
                                     "expr": str(expr)[:160], "gate_index": len(qc.gates)})
         return r
 
+    def _framed(orig):
+        def helper(self, qc, expr, dest=None):
+            STATE["frames"].append({"depth": STATE["depth"], "children": [], "expr": str(expr)[:80]})
+            try:
+                return orig(self, qc, expr, dest)
+            finally:
+                STATE["frames"].pop()
+
+        return helper
+
+    onot = IC.compile_not
+
+    def compile_not(self, qc, expr, dest=None, sym=None):
+        n0 = len(qc.gates)
+        r = onot(self, qc, expr, dest, sym)
+        try:
+            if len(qc.gates) > n0:
+                g, w, p = qc.gates[-1]
+                selfnot = sym is not None and getattr(expr.args[0], "name", None) == sym.name
+                if type(g).__name__ == "X" and list(w) == [r] and r in qc.ancilla_lst and not selfnot and dest != r:
+                    STATE["inplace_nots"] = STATE.get("inplace_nots", 0) + 1
+                    # an operand list of an enclosing And/Or that is still being collected refers to this qubit
+                    for f in STATE["frames"]:
+                        if r in f["children"]:
+                            STATE["clobbers"].append({"qubit": r, "pending_in": f["expr"], "negated": str(expr)[:80], "gate_index": len(qc.gates)})
+                            break
+        except Exception:
+            pass
+        return r
+
     IC.compile = compile
     IC.compile_expr = compile_expr
+    IC.compile_and = _framed(IC.compile_and)
+    IC.compile_or = _framed(IC.compile_or)
+    IC.compile_not = compile_not
 
 
 def arm(on=True):
